@@ -2,12 +2,16 @@ module verifharness
 
 go 1.22.0
 
-require github.com/koykov/inspector v0.0.0
+require (
+	github.com/koykov/inspector v0.0.0
+	golang.org/x/tools v0.28.0
+)
 
 require (
 	github.com/koykov/byteconv v1.0.1 // indirect
 	github.com/koykov/x2bytes v1.0.2 // indirect
-	golang.org/x/tools v0.28.0 // indirect
+	golang.org/x/mod v0.22.0 // indirect
+	golang.org/x/sync v0.10.0 // indirect
 )
 
 replace github.com/koykov/inspector => /repo
